@@ -27,7 +27,7 @@ CLAIMS = {
          "Reader.ReadNBytes and every []byte member / optional-parameter value stored by every IDecode, ReadTLVs, ReadTLVs1, ReadOptions, ParseOptions (loop invariant: the map built so far owns all its values); every destination list ([]string member) a submit decoder stores is newly allocated or without backing memory when the object brought no capacity, "
          "and - behaviour `reuse`, decoding into an object that already holds an earlier result - nothing is written through the list the object held on entry (kept(m)): slices carry an unknown spare capacity, append to foreign memory is explored as 'fits: in place' / 'reallocated'. "
          "A result that is fresh at return cannot be changed by any later call that does not receive it (separation of allocations), which is the history-independent form of the property. Repaired: D22 (SMGP submit option values aliased the input).",
-         "Strings are immutable values in the model; the engine scans the SSA of the repository for unsafe string/slice conversions on every run (none), and strings.Builder/bytebufferpool String() are assumed to hand out immutable strings (A-STR). Frames returned by the zero-copy extractors are views by design and are not claimed fresh. The [][]byte results of the splitters are not covered. "),
+         "Strings are immutable values in the model; the engine scans the SSA of the repository for unsafe string/slice conversions on every run (none), and strings.Builder/bytebufferpool String() are assumed to hand out immutable strings (A-STR). Frames returned by the zero-copy extractors are views by design and are not claimed fresh. That the parts of a splitter's [][]byte result do not overlap in memory (up to their capacities) is not expressible in the model (octet slices carry no capacity): a BOUNDED stand-in (TestValidator_SPLITOWN: 24 texts x 9 codings, pairwise disjoint backing ranges, spare capacity written) runs on every check; not proved. "),
  "C01": ("For each of the 57 PDU types (+ the CMPP status report) the table-derived contracts are proved on the real IEncode/IDecode: "
          "WF(p) => IEncode succeeds, leaves p unchanged up to the documented normalisations and returns layout_T(p) with the real length in octets 0-3; "
          "IDecode(layout_T(q)) yields q in every member for every well-formed q (ghost), all field values, all destination-list lengths (loop invariants), "
